@@ -30,10 +30,11 @@
      F  ServiceResolved on a channel only after ServiceFound for that instance on that channel;
      C  at the end of an iteration that delivered a record of the instance (or started the
         browse), an instance of a browsed type that is strongly alive is reported "up";
-     Q1 after a ServiceFound that did not lead to ServiceResolved, the first follow-up question
+     Q1 after a ServiceFound that did not lead to ServiceResolved, a follow-up question
         ((instance, ANY) while no SRV is cached, else (host, A) while the host has no address)
-        is asked in the first iteration at or after +500 ms, and the requested wake-ups are
-        not later than that instant;
+        is asked in the first iteration at or after +500 ms, again 500 ms after that try and once
+        more 500 ms after the second (three tries, as long as something is missing), and the
+        requested wake-ups are not later than those instants;
      Q2 without new records, (instance, ANY) is asked in at most 3 iterations;
      Q4 an ANY question asks for a name (label list) that some delivered PTR points to.
    Definitions only. *)
@@ -171,6 +172,18 @@ Definition death_time (c : cache) (ty inst : bytes) : N :=
         (fold_right (fun e acc => N.max (N.min (e_expires e) (max_exp (addr_entries c (srv_host e)))) acc)
                     0 (srv_entries c inst)).
 
+(* a NEW record of the instance arrived in a datagram after which the instance was strongly
+   alive: handle_response then has to resolve it (otherwise the instance became complete by
+   refreshed records only) *)
+Fixpoint iter_fresh (ifs : iftab) (now : N) (sp : spec) (ds : list dgram) (ty inst : bytes) : bool :=
+  match ds with
+  | [] => false
+  | d :: t =>
+    let sp1 := spec_dgram ifs now sp d in
+    (existsb (news_relevant (sp_c sp1) inst) (dgram_news ifs now sp d) && alive_strong (sp_c sp1) now ty inst)
+    || iter_fresh ifs now sp1 t ty inst
+  end.
+
 (* a delivery that concerns the instance (host: the host name it is / was resolved to) *)
 Definition relevant (inst host : bytes) (d : dlv) : bool :=
   let r := dl_rr d in
@@ -288,7 +301,7 @@ Record t04 : Type := mkT04 {
   t4_sp : spec;
   t4_ups : list up_entry;
   t4_found : list (N * bytes);                 (* (channel, inst) for which ServiceFound was seen *)
-  t4_oblig : list (bytes * (N * bool));        (* inst, (due time of the first follow-up, stale) *)
+  t4_oblig : list (bytes * (N * (bool * N)));  (* inst, (due time of the next follow-up, (stale, number of the try)) *)
   t4_open : list bytes;                        (* instances with a follow-up episode and no ServiceResolved since *)
   t4_any : list (bytes * N);                   (* inst -> iterations with an (inst, ANY) question since the last record *)
   t4_targets : list (list bytes) }.            (* label lists of delivered PTR targets *)
@@ -359,19 +372,26 @@ Definition step04 (ifs : iftab) (k : N) (t : t04) (it : iter) (wake : option N) 
   let '(_, sp2, sp3) := iter_snaps ifs (t4_sp t) it in
   let cur := iter_dlvs ifs it in
   let targets := t4_targets t ++ flat_map (fun d => ptr_targets_of (d_data d)) (i_dgrams it) in
-  (* Q1: obligations that are due *)
+  (* Q1: follow-up tries that are due: the expected question must be asked; tries 1 and 2 are
+     followed by another try 500 ms later, the chain ends when nothing is missing *)
   let due := filter (fun o => fst (snd o) <=? now) (t4_oblig t) in
   let notdue := filter (fun o => negb (fst (snd o) <=? now)) (t4_oblig t) in
   let fsQ1 := flat_map (fun o =>
                 match expected_followup (sp_c sp2) (fst o) with
                 | Some q => if q_mem (name_labels (fst q), snd q) (ob_qs ob) then []
-                            else [F04_followup k (fst o) (snd (snd o))]
+                            else [F04_followup k (fst o) (fst (snd (snd o)))]
                 | None => []
                 end) due in
+  let chained := flat_map (fun o =>
+                   match expected_followup (sp_c sp2) (fst o) with
+                   | Some q => if q_mem (name_labels (fst q), snd q) (ob_qs ob) && (snd (snd (snd o)) <? 3)
+                               then [(fst o, (now + 500, (fst (snd (snd o)), snd (snd (snd o)) + 1)))]
+                               else []
+                   | None => []
+                   end) due in
   (* events *)
   let '(ups1, found1, newfound, resolved_now, removed_now, fsE) :=
     fold_left (ev04 k) (ob_evts ob) (t4_ups t, t4_found t, [], [], [], []) in
-  let news := iter_news ifs now (t4_sp t) (deliveries_in_order (i_dgrams it)) in
   let ups2 := ups_current (sp_q sp3) ups1 in
   let found2 := filter (fun x => existsb (fun tc => snd tc =? fst x) (sp_q sp3)) found1 in
   (* C: complete, triggered, browsed => up *)
@@ -381,7 +401,8 @@ Definition step04 (ifs : iftab) (k : N) (t : t04) (it : iter) (wake : option N) 
                     && (existsb (relevant_any_host (sp_c sp3) inst) cur || browse_called (fst tc) (i_calls it))
                     && negb (existsb (up_is (snd tc) inst) ups2)
                  then [F04_complete k (snd tc) (fst tc) inst
-                         (existsb (news_relevant (sp_c sp3) inst) news || browse_called (fst tc) (i_calls it))]
+                         (iter_fresh ifs now (t4_sp t) (deliveries_in_order (i_dgrams it)) (fst tc) inst
+                          || browse_called (fst tc) (i_calls it))]
                  else [])
                  (dedup (map (fun p => alias_of (e_rr p))
                              (match bm_get (fst tc) (c_ptr (sp_c sp3)) with Some b => b | None => [] end))))
@@ -392,15 +413,15 @@ Definition step04 (ifs : iftab) (k : N) (t : t04) (it : iter) (wake : option N) 
   let open1 := filter (fun i => negb (mem i resolved_now)) (dedup (t4_open t ++ removed_now)) in
   let is_up inst := existsb (fun u => beq (snd (snd u)) inst) ups1 in
   let '(oblig2, open2) :=
-    fold_left (fun (acc : list (bytes * (N * bool)) * list bytes) inst =>
+    fold_left (fun (acc : list (bytes * (N * (bool * N))) * list bytes) inst =>
                  let '(ob_, op_) := acc in
                  if is_up inst || mem inst resolved_now || existsb (fun o => beq (fst o) inst) ob_ then acc
-                 else (ob_ ++ [(inst, (now + 500, mem inst op_))], if mem inst op_ then op_ else op_ ++ [inst]))
-              (dedup newfound) (notdue, open1) in
+                 else (ob_ ++ [(inst, (now + 500, (mem inst op_, 1)))], if mem inst op_ then op_ else op_ ++ [inst]))
+              (dedup newfound) (notdue ++ chained, open1) in
   let fsW := flat_map (fun o =>
                match wake with
-               | Some w => if w <=? fst (snd o) then [] else [F04_wake k (fst o) (snd (snd o))]
-               | None => [F04_wake k (fst o) (snd (snd o))]
+               | Some w => if w <=? fst (snd o) then [] else [F04_wake k (fst o) (fst (snd (snd o)))]
+               | None => [F04_wake k (fst o) (fst (snd (snd o)))]
                end) oblig2 in
   (* Q2 / Q4 *)
   let any1 := filter (fun x => negb (existsb (relevant (fst x) []) cur)) (t4_any t) in
